@@ -9,7 +9,7 @@ END_ALL = ('D', 'T')
 
 def make(ids, data=DATA_ALL, ends=END_ALL, passwords=tuple(proto.PASSWORDS), replies=proto.REPLY_KINDS,
          old_replies=('OKA', 'NO', 'MORE', 'UNL', 'OK'), malformed=proto.MALFORMED_TAGS, malformed_replies=('OKA', 'NO'),
-         ghost_replies=('OKA', 'NO', 'MORE', 'UNL'), with_timeout=True, pbudget=None, dead_probes=True, reannounce=True):
+         ghost_replies=('OKA', 'NO', 'MORE', 'UNL'), with_timeout=True, pbudget=None, dead_probes=True, reannounce=True, alt_announce=False):
     def fn(st, w):
         evs = []
         live = {i: inst for i, inst in st.M}
@@ -17,6 +17,8 @@ def make(ids, data=DATA_ALL, ends=END_ALL, passwords=tuple(proto.PASSWORDS), rep
             inst = live.get(i)
             if inst is None or reannounce:
                 evs.append(('C', i))
+                if alt_announce:
+                    evs.append(('C2', i))     # the same id from another address/port
             if inst is None:
                 if dead_probes:
                     # lines for an id that is not live must be ignored: one disconnect and one data line as probes,
@@ -65,7 +67,7 @@ def reduced(ids, **kw):
 
 def scen_hurry(ids, **kw):
     """S_A: data arrives only as hurry-up; rich passwords / replies / stray replies."""
-    d = dict(data=('H',), ends=('D', 'T'), passwords=('x', 'bang', 'nobang', 'xbang', 'nopass'), pbudget=2)
+    d = dict(data=('H',), ends=('D', 'T'), passwords=('x', 'bang', 'nobang', 'xbang', 'rebang', 'nopass', 'bangword'), pbudget=2)
     d.update(kw)
     return make(ids, **d)
 
